@@ -3,7 +3,7 @@ import os, subprocess
 from lib import core
 from lib.prop import Prop
 
-TSAN_FLAGS = ["-std=c++20", "-O1", "-g", "-fsanitize=thread", "-DNDEBUG", f"-D{core.GUARD}"]
+TSAN_FLAGS = ["-std=c++20", "-O1", "-g", "-fsanitize=thread", "-DNDEBUG", f"-D{core.GUARD}", "-fno-access-control"]
 
 
 def parse_mt(out):
